@@ -233,6 +233,15 @@ def class_decl(draw, lang, names, enum_types=(), force_member=None):
     for i in range(draw(st.integers(0, 3))):
         methods.append(draw(function(lang, cnames, prefix=draw(st.sampled_from(["method", "getVal", "do_it"])),
                                      cls=name, max_params=2)))
+    # reference.rst return_this / classes.yaml returnThis: a method returning 'this' for chaining in C++; the C and
+    # Fortran wrappers come from a generated clone without result (Python / Lua off as in classes.yaml)
+    if draw(st.integers(0, 2)) == 0:
+        ps = [P("step", "int step", "", "N1", "int")] if draw(st.booleans()) else []
+        # (switched off for Python and Lua through options of its own as in classes.yaml, or left on as in example.yaml)
+        both = draw(st.booleans())
+        methods.append(dict(kind="func", name=cnames.fresh("chain"), rtype="%s *" % name, rattrs="", rrow="Rthis", rT=None,
+                            params=ps, py=both, lua=both, const=False, static=False, options={}, format={},
+                            extra={"return_this": True}))
     # classes.rst "Member Variables": public data members get getter / setter functions (only a getter with +readonly)
     members = []
     if force_member:
